@@ -28,9 +28,40 @@ type OnceState struct {
 	running bool
 }
 
+// ForeignLocksDirect lets goroutines the engine does not control (library
+// helpers such as prometheus.DescribeByCollect, which calls Collect from its
+// own goroutine while the registering thread waits for it) perform mutex,
+// rwmutex and atomic operations directly, provided the lock is free; anything
+// else from such a goroutine remains an engine error.  ForeignOps counts them.
+var ForeignLocksDirect = false
+var ForeignOps int
+
+func foreign() bool {
+	if !ForeignLocksDirect || w == nil || w.aborting {
+		return false
+	}
+	if goid() == w.curG {
+		return false
+	}
+	ForeignOps++
+	return true
+}
+
+func foreignMustBeFree(free bool, what string) {
+	if !free {
+		fmt.Printf("ENGINE-ERROR vrt: an uncontrolled goroutine needs %s, which is held; it cannot be scheduled\n%s\n", what, stack())
+		osExit(2)
+	}
+}
+
 func direct() bool { return w == nil || w.aborting }
 
 func MutexLock(m *MutexState) {
+	if foreign() {
+		foreignMustBeFree(!m.locked, "a Mutex")
+		m.locked = true
+		return
+	}
 	if direct() {
 		m.locked = true
 		return
@@ -55,6 +86,10 @@ func MutexTryLock(m *MutexState) bool {
 }
 
 func MutexUnlock(m *MutexState) {
+	if foreign() {
+		m.locked = false
+		return
+	}
 	if !m.locked && !direct() {
 		panic("sync: unlock of unlocked mutex")
 	}
@@ -62,6 +97,11 @@ func MutexUnlock(m *MutexState) {
 }
 
 func RWLock(m *RWState) {
+	if foreign() {
+		foreignMustBeFree(!m.writer && m.readers == 0, "an RWMutex (write)")
+		m.writer = true
+		return
+	}
 	if direct() {
 		m.writer = true
 		return
@@ -105,6 +145,11 @@ func RWUnlock(m *RWState) {
 }
 
 func RWRLock(m *RWState) {
+	if foreign() {
+		foreignMustBeFree(!m.writer, "an RWMutex (read)")
+		m.readers++
+		return
+	}
 	if direct() {
 		m.readers++
 		return
@@ -445,6 +490,9 @@ var MapOrderChoice func(keys interface{}) interface{}
 
 // Atomic is the scheduling point before an atomic operation.
 func Atomic() {
+	if foreign() {
+		return
+	}
 	if direct() {
 		return
 	}
